@@ -229,3 +229,60 @@ def export_concat_obligations():
             obs.append(Obligation(f"{key}/arity{arity}/p{pi}/post.parts-in-reverse-order", "post", list(s2.pc), goal, key,
                                   f"arity{arity}", pi, {"trace": list(s2.trace), "havoc": list(s2.ghost.get("havoc", ()))}))
     return key, obs, info
+
+
+def export_instance_conn_obligations():
+    """ProtoExporter.export_instance: the connection loop body located in the current source, executed for one arbitrary
+    (port name, connectable) entry of inst.conns: one Connection record carrying that port name and the export of that
+    very connectable is appended at the end of pinst.connections (so: one exported connection per entry, in order)."""
+    import ast
+    from pyvc.engine import Frame
+    from hdl21.proto.exporting import ProtoExporter
+    key = "hdl21.proto.exporting:ProtoExporter.export_instance"
+    ext = loader.extract(key)
+    info = {"sha": ext.sha, "lines": ext.lines, "path": ext.path, "paths": 0, "scenarios": 0, "unsupported": []}
+    loops = [n for n in ast.walk(ext.node) if isinstance(n, ast.For) and "conns" in ast.unparse(n.iter)
+             and isinstance(n.target, ast.Tuple)]
+    obs = []
+    if len(loops) != 1:
+        info["unsupported"].append(f"expected one loop over inst.conns in export_instance, found {len(loops)}")
+        return key, obs, info
+    loop = loops[0]
+    schema = dict(SCHEMA_EXTRA)
+    schema.update({"Connection.portname": "str", "Connection.target": "ref", "connections": "py"})
+    eng = mk_engine(contracts=[ExportTargetCallee()], schema_extra=schema, field_classes=c_import.FIELD_CLASSES)
+    st = eng.new_state()
+    me = sym_ref(st, "self", (ProtoExporter,))
+    pinst = sym_ref(st, "pinst", (vckt.Instance,))
+    before = tuple(sym_ref(st, f"earlier{k}", (vckt.Connection,)) for k in range(2))
+    eng.write_field(st, pinst, "connections", before)
+    conn = sym_ref(st, "conn", (Signal, Slice, Concat))
+    tk, tv = (t.id for t in loop.target.elts)
+    pname = SStr(z3.String("pname"))
+    st.locals = {"self": me, "pinst": pinst, "inst": Opaque("inst"), tk: pname, tv: conn}
+    eng.frames.append(Frame(ext, ext.key))
+    eng.cuts = []
+    try:
+        outs = eng.exec_block(loop.body, st)
+    except Unsupported as e:
+        info["unsupported"].append(f"connection loop body: {e}")
+        return key, obs, info
+    finally:
+        eng.frames.pop()
+    info["scenarios"] = 1
+    for pi, (kind, s2, v) in enumerate(outs):
+        info["paths"] += 1
+        if kind == "exc":
+            continue       # an unexportable connectable: refusal is allowed
+        calls = [c for c in s2.calls if c[0] == KEY]
+        got = eng.read_field(s2, pinst, "connections")[0][1]
+        goal = z3.BoolVal(False)
+        if len(calls) == 1 and isinstance(calls[0][1].sig, SRef) and calls[0][1].sig.z.eq(conn.z) and \
+                isinstance(got, tuple) and len(got) == 3 and all(g.z.eq(b.z) for g, b in zip(got[:2], before)) and \
+                isinstance(got[2], SRef):
+            rec = got[2]
+            goal = z3.And(s2.heap.get("Connection.portname", rec.z) == pname.z,
+                          s2.heap.get("Connection.target", rec.z) != NULL)
+        obs.append(Obligation(f"{key}/connection-loop/p{pi}/post.one-record-appended", "post", list(s2.pc), goal, key,
+                              "connection-loop", pi, {"trace": list(s2.trace), "havoc": list(s2.ghost.get("havoc", ()))}))
+    return key, obs, info
